@@ -51,6 +51,7 @@ func newScalarTable(inputSampleIDs []uint64, outputs []*model.Series, newAccumul
 }
 
 func (t *scalarTable) aggregate(arg float64, vector model.StepVector) {
+	t.timestamp = vector.T
 	t.reset(arg)
 
 	for i := range vector.Samples {
